@@ -36,15 +36,24 @@ def replay(case) -> dict:
     rot = Rotation.from_matrix(np.array([cfg["R"]], dtype=float))
     mole = Molecules((pos_px * scale)[None, :], rot)
     imgs = [_tomo(n, 0), _tomo(n, 1)]
+    # voxel type of the tomogram: integer tomograms (MRC modes 0 and 1) with values large enough for a block sum to leave the type's range
+    vox = ("float32", "int16", "float32", "int8")[case.get("_v", 0) % 4]
+    if vox == "int16":
+        imgs = [(im * 2500).astype(np.int16) for im in imgs]
+    elif vox == "int8":
+        imgs = [(im * 10).astype(np.int8) for im in imgs]
+    desc["vox"] = vox
+    corner = bool(cfg.get("corner", False))
+    desc["corner_safe"] = corner
 
     def wrap(a):
         return da.from_array(a, chunks=(5, 6, 7)) if cfg["lazy"] else a
 
     if cfg["kind"] == "single":
-        parent = SubtomogramLoader(wrap(imgs[0]), mole, order=cfg["order"], scale=scale, output_shape=s)
+        parent = SubtomogramLoader(wrap(imgs[0]), mole, order=cfg["order"], scale=scale, output_shape=s, corner_safe=corner)
         which = 0
     else:
-        parent = BatchLoader(order=cfg["order"], scale=scale, output_shape=s)
+        parent = BatchLoader(order=cfg["order"], scale=scale, output_shape=s, corner_safe=corner)
         parent.add_tomogram(imgs[0] if cfg.get("mix") else wrap(imgs[0]), Molecules(np.array([[1.0, 1.0, 1.0]]) * scale))
         parent.add_tomogram(wrap(imgs[1]), mole)
         which = 1
@@ -138,8 +147,11 @@ def run(rep: engine.Report, tier: str, seed: int):
         raise engine.MachineryError("MC_C15 emitted nothing")
     for i, c in enumerate(cases):
         c["_h"] = (i * 31 + seed) % 3
+        c["_v"] = (i * 17 + seed) % 4
     budget = 1500 if tier == "quick" else len(cases)
     sel = engine.stratified_sample(cases, lambda c: (c["cfg"]["b"], tuple(c["cfg"]["s"]), c["cfg"]["kind"], c["cfg"]["lazy"], c["cfg"]["mix"], c["cfg"]["compute"]), budget, seed)
+    have = {json.dumps(c["cfg"], sort_keys=True) for c in sel}
+    sel += [c for c in cases if c["cfg"].get("corner") and json.dumps(c["cfg"], sort_keys=True) not in have]   # few: always replayed
     rep.exhaustive = len(sel) == len(cases)
     results = engine.parallel_replay("harness.props.c15", "replay", sel)
     engine.collect(rep, sel, results, key=lambda c: c["cfg"])
@@ -148,7 +160,8 @@ def run(rep: engine.Report, tier: str, seed: int):
     rep.rule = (
         "TLC enumerates image shapes {(12,13,17),(13,12,14)} x b in 1..6 x 5 box shapes (odd/even/non-cubic) x 3 binned-grid "
         "positions (incl. one voxel over the edge) x {identity, 2 Rot24 for the cubic box} x orders x single/batch x "
-        "numpy/dask x compute; checks the BinIdentity and emits the exact block each voxel sums; "
+        "numpy/dask x compute, plus corner-safe loaders with elongated boxes (1,1,5) under quarter turns (order 1, b 1-2); tomogram voxel "
+        "types float32 / int16 / int8 with block sums beyond the integer type's range; checks the BinIdentity and emits the exact block each voxel sums; "
         f"{len(cases)} cases, {len(sel)} replayed"
     )
 
